@@ -68,10 +68,11 @@ def run_strategy_case(ctx, kind_, idx):
         y = y.copy()
         y[j:j + int(rng.integers(2, 4))] = y[j]
         meta["ycls"] += "+ties"
+    x, y_arg, y = R.narrow_series(rng, x, y, meta)
     info = R.brief(strat, x, y, n, kw, meta)
     try:
         with fp_watch(ctx):
-            xs, ys = R.run(strat, x, y, n, kw)
+            xs, ys = R.run(strat, x, y_arg, n, kw, rng=rng)
     except Exception as e:
         ctx.judged()
         ctx.exception("raised_on_admissible_input", cid, e, {"case": info})
